@@ -31,6 +31,9 @@ CLAIMED = {
  "C10": ("deterministic simulation with conn.drop / conn.restart / peer.entity_remove faults placed by an independent fault task while other peers' messages are being handled; ownership-partition oracle over registries (porcupine, with removal operations), client-side references, pending approvals, events and stale writes",
          "Seeded exploration of histories in which 2-3 peers with overlapping numbering subscribe, bind, have writes pending approval (silent application) and are referenced by local client features, while connections are removed (by the peer's own script and by an independent fault task, also mid-handling of other peers' messages), re-established, and entities are announced as removed. After the drain: registry histories including removals are linearizable and every peer's final listing matches, nothing of a removed peer is left, removal events match, removed devices are not resolvable, no pending approval or client-side reference of the removed owner survives while the others keep theirs, nothing is written to a removed connection by an operation (or approval timer) that began after the removal returned, and every connected peer still gets its discovery read answered.",
          "Sampling; trusted: instrumenter, synctest fake clock (approval timers are fired in the drain), porcupine, registry model (A.5).", "5/C10"),
+ "C06": ("deterministic simulation: scripted announcers mutate their own model tree and send detailed-discovery replies and partial/full add/remove notifications (several entities per notification, add+remove in one, repeated, unknown removals, nested addresses) after placing subscriptions, bindings and client-side references on the entities; reference-tree oracle (DESIGN A.4) over the remote view, events and registries",
+         "Seeded exploration of histories of discovery reply, partial add, partial remove, mixed and full notifications over entity addresses {[1],[2],[1,1],[1,2]} from 1-2 scripted peers, each notification optionally repeated. After every handled notification DeviceRemote.Entities/Features/Operations/FeatureByAddress must render exactly the announced tree (addresses, types, roles, descriptions, read/write operations); at the end exactly one entity-added/removed event per entity that appeared/disappeared, the subscriptions/bindings granted on entities that were never removed are all still listed and those of removed entities are gone, client-side references likewise.",
+         "Sampling; trusted: instrumenter, synctest, reference tree semantics A.4. Full notifications that change an entity that stays, selectors etc. are not generated (statement leaves them open).", "5/C06"),
  "C07": ("deterministic simulation: seeded schedules over concurrent GetOrAddFeature/NextFeatureId tasks + discovery replies vs. a model of the local tree; identity/uniqueness oracle",
          "Seeded exploration of interleavings at lock/spawn/atomic granularity (statement granularity in entity_local.go in the thorough tier) of concurrent feature creation, and of histories of entity/feature additions and removals interleaved with discovery reads from subscribed and unsubscribed scripted peers; every discovery reply and every add/remove notification is compared with a model built from the harness's own calls.",
          "Sampling of schedules and histories; trusted: instrumenter rewrites, synctest, the local-tree model in harness/sc_c07*.go.", "5/C07"),
